@@ -1834,6 +1834,39 @@ theorem applyUpds_ok (p : ParamTree) (us : List PUpd) {p' : ParamTree} (hu : app
         simp only [List.filter_cons, hn, decide_false]
         rfl
 
+/-- a modifier that returns normally only named parameters that exist -/
+theorem applyUpds_named (p : ParamTree) (us : List PUpd) {p' : ParamTree} (hu : applyUpds p us = (p', .ok ())) :
+    ∀ u ∈ us, (dictGet u.name p).isSome = true := by
+  induction us generalizing p with
+  | nil => intro u hu'; cases hu'
+  | cons a r ih =>
+    intro u hmem
+    unfold applyUpds at hu
+    cases hd : dictGet a.name p with
+    | none => rw [hd] at hu; simp at hu
+    | some l =>
+      rw [hd] at hu
+      dsimp only at hu
+      rcases List.mem_cons.mp hmem with rfl | hmem
+      · rw [hd]; rfl
+      · have := ih _ hu u hmem
+        by_cases hn : u.name = a.name
+        · rw [hn, hd]; rfl
+        · rw [dictGet_dictSet_ne _ _ hn] at this; exact this
+
+theorem modifyParams_named {h : Heap} {X : Oid} {us : List PUpd} {h' : Heap}
+    (hm : modifyParams h X us = (h', .ok ())) : ∀ u ∈ us, (paramHist h X u.name).isSome = true := by
+  rcases modifyParams_inv h X us with ⟨e, he⟩ | ⟨s, p, b, p', hs, hp, hb, hu, he⟩ | ⟨s, p, p', r, hs, hp, hb, hu, he⟩
+  · rw [he] at hm; cases hm
+  · intro u hmem
+    rw [paramHist_eq hs hp]; exact applyUpds_named p us hu u hmem
+  · rw [he] at hm
+    simp only [Prod.mk.injEq] at hm
+    obtain ⟨_, hm2⟩ := hm
+    subst hm2
+    intro u hmem
+    rw [paramHist_eq hs hp]; exact applyUpds_named p us hu u hmem
+
 /-- the histories of `X` after a parameter modifier that returned normally -/
 theorem modifyParams_hist {h : Heap} {X : Oid} {us : List PUpd} {h' : Heap}
     (hm : modifyParams h X us = (h', .ok ())) (hw : SysWF h X) (pn : String) :
